@@ -31,6 +31,10 @@ def gen_ident(rng):
 def gen_name(rng, allow_lf=True):
     if rng.random() < 0.45:
         return gen_ident(rng)
+    if rng.random() < 0.15:
+        # the SAME special character several times (an escape that handles only the first occurrence is wrong)
+        sp = rng.choice(['\\', '\t', '"', "'", '\n' if allow_lf else '\t', '\\'])
+        return sp.join(gen_ident(rng)[:2] for _ in range(rng.randint(3, 4)))
     n = rng.choice([0, 1, 1, 2, 3, 4, 6]) if rng.random() < 0.9 else rng.randint(7, 14)
     s = ''.join(rng.choice(NAME_ALPHA) for _ in range(n))
     if not allow_lf:
@@ -78,13 +82,20 @@ def esc_model(names_q):
 def build_cases(ctx):
     rng = ctx.rng
     quick = ctx.tier == 'quick'
-    n_per = {'table': 500, 'direct': 200, 'csv': 700, 'csvfile': 160, 'pandas': 120, 'sqlite': 120} if quick else \
+    n_per = {'table': 900, 'direct': 200, 'csv': 700, 'csvfile': 160, 'pandas': 120, 'sqlite': 120} if quick else \
             {'table': 50000, 'direct': 15000, 'csv': 60000, 'csvfile': 10000, 'pandas': 8000, 'sqlite': 8000}
     protos = []
     for kind, n in n_per.items():
         for _ in range(n):
             if kind == 'direct':
                 names = gen_names(rng, idents=rng.random() < 0.9)
+                if rng.random() < 0.3:
+                    # column names that are spelled like positional variables (a3, b1) at some OTHER position: the name wins
+                    for j in range(len(names)):
+                        if rng.random() < 0.6:
+                            cand = rng.choice('ab') + str(rng.randint(1, 6))
+                            if cand not in names:
+                                names[j] = cand
             elif kind in ('csv', 'csvfile'):
                 names = gen_names(rng, allow_lf=True)
                 names = [x for x in names if not x.startswith('﻿')]
@@ -425,6 +436,18 @@ def run(ctx):
         if not is_ident(n) or e[0].get('has_header'):
             ctx.nontriv((c['src'], tuple(c['names_all']), c['col'], c['style'], c['flag'], c['mod']))
     ctx.sample({'case': {k: cases[0][k] for k in ('src', 'queries', 'records', 'flag', 'mod')}, 'model': expc[0], 'implementation': got[0]})
+    # ---- JavaScript leg (rbql-js/rbql.js is an anchor too): list sources through rbql-js query_table, same expectations.
+    # The common ground: a header is given, the probe is written a["..."] / a['...'] / a.name / bare (the escape of a name is the
+    # same text in both ports for the two quote characters), no WITH modifier (parsed by different regexes in the two ports)
+    js_idx = [i for i, c in enumerate(cases) if c['kind'] == 'table' and c.get('names') is not None and c['mod'] is None
+              and not any(e.get('error') or 'model' in e for e in exp[i])]
+    js_cases = [cases[i] for i in js_idx]
+    js_got = lib.run_impl_js('c09', js_cases, shards=8)
+    js_got = [canon_got(c, g, exp[i]) for c, g, i in zip(js_cases, js_got, js_idx)]
+    ctx.compare([dict(c, impl='js') for c in js_cases], [expc[i] for i in js_idx], js_got, THEOREM + ' (rbql-js leg)',
+                describe=lambda c, e, g: 'rbql-js: ' + describe(c, e, g), shrink=None)
+    ctx.count(len(js_cases) * 3)
+    ctx.stat('js_leg_cases', len(js_cases))
     # ---- JOIN stream
     jc = build_join_cases(ctx)
     jexp = join_expect(jc)
@@ -485,6 +508,6 @@ def replay(ctx, case):
         ctx.compare([case], [canon_exp(case, e[0])], [canon_got(case, g[0], e[0])], THEOREM, describe=describe)
     else:
         _a, _r, e = model_expect([case])
-        g = lib.run_impl_py('c09', [case], shards=1)
+        g = (lib.run_impl_js if case.get('impl') == 'js' else lib.run_impl_py)('c09', [case], shards=1)
         ctx.compare([case], [canon_exp(case, e[0])], [canon_got(case, g[0], e[0])], THEOREM, describe=describe)
     ctx.count(1)
